@@ -4,6 +4,7 @@ import ast
 from ..pm import AnalysisError, norm_src, func_params
 from ..flow import CFG, ENTRY, attr_chain
 from ..astutil import call_name, kwarg
+from ..e6_algebra import to_rat, Poly
 from ..e3_axes import Interp, Arr, Num, Ax, Lst, Tup, NoneV, Obj, is_top
 from ..scenarios import nonusage, dedup_events
 from .c12 import DRAWS, rng_origin, _cfg_stmt, _enclosing_def
@@ -533,6 +534,10 @@ def run(pm, ctx):
         elif weak:
             ctx.violation("C20-e", u.relpath, "draw_gmm", norm_src(weak[0].test), f"`{norm_src(weak[0].test)}` rejects only when ALL entries are invalid: a single invalid entry is accepted",
                           line=weak[0].lineno, site=site)
+        elif name == "normalised proportions" and [s_ for s_, k in sem if k and k[0] == "sum-one-sided"]:
+            o_ = [s_ for s_, k in sem if k and k[0] == "sum-one-sided"][0]
+            ctx.violation("C20-e", u.relpath, "draw_gmm", norm_src(o_.test), f"`{norm_src(o_.test)}` rejects a sum of the proportions on one side of 1 only: proportions whose sum lies on "
+                          "the other side (e.g. [0.25, 0.25, 0.25]) do not describe a mixture and are accepted", line=o_.lineno, site=site)
         elif hit:
             ctx.violation("C20-e", u.relpath, "draw_gmm", name, f"the check for {name} does not precede the first draw", line=hit[0].lineno, site=site)
         else:
@@ -633,8 +638,26 @@ def _guard_semantics(t):
         srcs = [norm_src(a) for a in c.args[:2]]
         if "1" in srcs and any("pvals" in x and "sum" in x for x in srcs):
             return ("sum-ne-1", "pvals")
+    if isinstance(t, ast.Compare) and len(t.ops) == 1 and isinstance(t.ops[0], (ast.Lt, ast.LtE, ast.Gt, ast.GtE)):
+        # a tolerance test on the sum of the proportions: two-sided (abs(sum - 1) > tol) or one-sided (sum - 1 > tol)
+        for side, other in ((t.left, t.comparators[0]), (t.comparators[0], t.left)):
+            if any(isinstance(n, ast.Name) and n.id == "pvals" for n in ast.walk(other)):
+                continue
+            core, absd = side, False
+            if isinstance(core, ast.Call) and (call_name(core) or "").split(".")[-1] in ("abs", "absolute", "fabs") and core.args:
+                core, absd = core.args[0], True
+            try:
+                r_ = to_rat(core)
+            except Exception:
+                continue
+            sums = [a for a in r_.atoms() if "pvals" in a and "sum" in a]
+            if len(sums) == 1 and r_.d == Poly.const(1) and set(r_.n.t) == {(), ((sums[0], 1),)} and abs(r_.n.t[()]) == 1 and abs(r_.n.t[((sums[0], 1),)]) == 1 \
+                    and r_.n.t[()] == -r_.n.t[((sums[0], 1),)]:
+                return ("sum-ne-1", "pvals") if absd else ("sum-one-sided", "pvals")
     if isinstance(t, ast.BoolOp) and isinstance(t.op, ast.Or):
         ks = [_guard_semantics(v) for v in t.values]
+        if all(k and k[0] == "sum-one-sided" for k in ks) and len(ks) == 2:
+            return ("sum-ne-1", "pvals")        # both one-sided tests in one disjunction
         if all(k and k[0] == "ne" for k in ks):
             return ("ne-or", frozenset(k[1] for k in ks))
         return None
